@@ -257,7 +257,7 @@ func (p *MetadataPersister) GetHeaderChildren(ctx context.Context, name string) 
 	name = p.getSanitizedPath(ctx, name)
 
 	headers, err := models.Headers(
-		qm.Where(models.HeaderColumns.Name+" like ?", strings.TrimSuffix(name, "/")+"/%"), // Prevent double trailing slashes
+		qm.Where("substr("+models.HeaderColumns.Name+", 1, length(?)) = ?", strings.TrimSuffix(name, "/")+"/", strings.TrimSuffix(name, "/")+"/"), // Exact prefix match (`like` would treat `_` and `%` in names as wildcards); prevent double trailing slashes
 		qm.Where(models.HeaderColumns.Deleted+" != 1"),
 	).All(ctx, p.sqlite.DB)
 	if err != nil {
